@@ -446,6 +446,53 @@ def verifyDelegationNSEC (delegation : Name) : List DelegNSEC → DelegRes
     else if n.ds || n.soa then .badDelegation
     else .ok
 
+/-! ### NODATA from hashed denial — `dnssec.VerifyNODATAForZoneWithWork`
+
+What the NSEC3 ring says about one question (hash lookups are the library's): the decision itself,
+in particular which record's Opt-Out bit decides whether the denial may carry AD (RFC 5155 §9.2). -/
+
+structure N3View where
+  /-- the record matching the query name: (query type or CNAME set, SOA set, NS set) -/
+  exact : Option (Bool × Bool × Bool) := none
+  /-- a closest encloser was found / it is a delegation point or DNAME owner -/
+  ceFound : Bool := false
+  ceBad : Bool := false
+  /-- Opt-Out bit of the record COVERING the next closer name -/
+  cover : Option Bool := none
+  /-- the record matching the wildcard at the closest encloser: (query type or CNAME set, its own Opt-Out bit) -/
+  wild : Option (Bool × Bool) := none
+deriving Repr
+
+inductive N3Res
+  | secure | insecure | typeExists | badDelegation | noCover | optOut
+deriving DecidableEq, Repr
+
+def verifyNODATA3 (isDS : Bool) (v : N3View) : N3Res :=
+  match v.exact with
+  | some (ty, soa, ns) =>
+    if ty then .typeExists
+    else if isDS && soa then .badDelegation
+    else if !isDS && ns && !soa then .badDelegation
+    else .secure
+  | none =>
+    if !v.ceFound then .noCover
+    else if v.ceBad then .badDelegation
+    else if isDS then
+      match v.cover with
+      | none => .noCover
+      | some false => .optOut
+      | some true => .insecure
+    else
+      match v.cover, v.wild with
+      | none, _ => .noCover
+      | some _, none => .noCover
+      | some oo, some (ty, _) => if ty then .typeExists else if oo then .insecure else .secure
+
+/-- `insecureProofName(q)` (e583743): the name whose position decides whether an unsigned response
+may be excused by an insecure delegation — for a DS question the name one label above its owner. -/
+def insecureProofName (qname : Name) (isDS : Bool) : Name :=
+  if isDS && !qname.isEmpty then qname.dropLast else qname
+
 /-! ### Resolver.verifyDNSSEC after the DNSKEY fetch -/
 
 inductive VRes
